@@ -547,6 +547,9 @@ static int c07_main(int argc,char **argv){
         printf("%s rc=%s tell=%lld state=%d link=%d\n",op,ovname(rc),(long long)ov_pcm_tell(vf),vf->ready_state,vf->ready_state>=STREAMSET?vf->current_link:-1);
       }else if(!strncmp(op,"timeseek",8)){
         double t=atof(tok[2])/1000.; int lap=(strstr(op,"lap")!=NULL); int page=(strstr(op,"page")!=NULL); int rc;
+        /* the exact duration (the first value out of range), its neighbours among the doubles, not-a-number */
+        if(!strcmp(tok[2],"end"))t=ov_time_total(vf,-1); else if(!strcmp(tok[2],"endm"))t=nextafter(ov_time_total(vf,-1),-1e300);
+        else if(!strcmp(tok[2],"endp"))t=nextafter(ov_time_total(vf,-1),1e300); else if(!strcmp(tok[2],"nan"))t=NAN;
         ogg_int64_t oldpos=ov_pcm_tell(vf); int oldlink=(vf->seekable&&vf->ready_state>=STREAMSET)?vf->current_link:-1; int ohs=ov_halfrate_p(vf)>0;
         int on=(oldlink>=0&&vf->vi)?(vorbis_info_blocksize(vf->vi+oldlink,0)>>(1+ohs)):0; int och=(oldlink>=0&&vf->vi)?vf->vi[oldlink].channels:0;
         int pend=H->lap_valid||H->stale; /* the audio at the old position is itself still cross-faded, or the decoder is ahead of the position (after ov_crosslap) */
